@@ -685,6 +685,7 @@ class History:
         self.amb = {}               # key(+m) -> allowed values after a rejected write
         self.stats = {}
         self.nops = 0
+        self.statuses = []
 
     def count(self, k):
         self.stats[k] = self.stats.get(k, 0) + 1
@@ -832,6 +833,7 @@ class History:
         pyfn, status, line, tg = self.execute(world, op, before_call=lambda tg0: self.pre_read(world, root, tg0))
         self.count('op:' + pyfn)
         self.count('status:' + status)
+        self.statuses.append(status)
         self.lines.append(line)
         self.obs.append(('status', status, pyfn))
         after = world.listing()
@@ -940,14 +942,16 @@ class History:
                 if other == gfam or len(UPD[uf]['sig'] + UPD[uf]['inner']) - (1 if other in PEC_CLASS else 0) != len(gp):
                     continue
                 st, res = real_get(repository, other, gp, world.path(kroot))
-                if st == 'ok' and want is not None and res.get('') == want:
+                # the destination holds the written value *and* that is not what the oracle expects there
+                if st == 'ok' and want is not None and res.get('') == want \
+                        and self.judge(self.key_of(kroot, other, gp), other, st, res) is not None:
                     sym = 'routes-to-%s-file' % short
                     break
         elif not own and status == 'ok':
             sym = 'other-key-changed' if self.allowed(k) != [MISSING] else 'unwritten-key-readable'
         elif status != 'ok':
             sym = 'rejected-update-loses-key' if 'RuntimeError' in why else 'rejected-update-corrupts-key'
-        return dict(signature='C06:%s:%s' % (pyfn, sym), at=at,
+        return dict(signature='C06:%s:%s' % (pyfn, sym), at=at, own=bool(own),
                     description='after %s -> %s: %s(%s) : %s' % (pyfn, status, GETF[gfam][0],
                                                                ', '.join(str(okey(o)) for o in gp), why))
 
@@ -1001,7 +1005,7 @@ def parse_model_cat(out):
     return res
 
 
-def run_history(facts, ops, probes=(), rng=None, max_other=1000, stop_at_first=False):
+def run_history(facts, ops, probes=(), rng=None, max_other=1000, stop_at_first=False, full=False):
     """-> History (lines/obs for K, failures for S)"""
     h = History(facts, max_other=max_other, rng=rng)
     w = World()
@@ -1010,7 +1014,7 @@ def run_history(facts, ops, probes=(), rng=None, max_other=1000, stop_at_first=F
             objs = [mat(a) for a in path]
             h.track(root, gfam, objs[1:] if gfam in PEC_CLASS else objs)
         for i, op in enumerate(ops):
-            h.step(w, op, probe_all=(i == len(ops) - 1 or i % 10 == 9))
+            h.step(w, op, probe_all=(full or i == len(ops) - 1 or i % 10 == 9))
             if stop_at_first and h.failures:
                 break
     finally:
@@ -1264,7 +1268,7 @@ def compare(ctx, hist, outs, label):
             bad += 1
             ctx.disagreements += 1
             ctx.count('disagreement:' + kind)
-            if bad <= 2:
+            if bad <= 2 and sum(1 for b in ctx.broken if b['kind'] == 'correspondence') < 6:
                 ctx.broke('correspondence', 'C06 %s stream (%s)' % (kind, label),
                           dict(line=line[:400], model=str(out)[:400], implementation=str(obs)[:400], after=str(meta)[:100]))
     return bad
@@ -1330,12 +1334,16 @@ def run(ctx):
             runs.append((label, h))
         for k, v in h.stats.items():
             ctx.count(k, v)
-        for op in ops[:h.nops]:
+        for op, st in zip(ops[:h.nops], h.statuses):
             b = op.get('bad')
             fn = op.get('fn') or op['fam']
-            ctx.case(key=(op['kind'], fn, str(b), len(op.get('entries', [])), op['root'] is None),
-                     sample=dict(op=_brief(op)) if rng.random() < 0.002 else None)
-        for f in h.failures:
+            ctx.case(key=(op['kind'], fn, st, str(b), len(op.get('entries', [])), op['root'] is None),
+                     sample=dict(history=label, op=_brief(op)) if (len(ctx.samples) < 3 or rng.random() < 0.002) else None)
+        fails = h.failures
+        if max_other < 1000 and any(not f.get('own', True) and (sig_override or f['signature']) not in reported for f in fails):
+            # found on a sampled key: the culprit may be an earlier call -- rerun with every key probed after every call
+            fails = run_history(facts, ops, probes, full=True).failures
+        for f in fails:
             sig = sig_override or f['signature']
             if sig in reported:
                 ctx.count('failure-repeat:' + sig)
